@@ -639,6 +639,7 @@ class KlongInterpreter():
 
         ctx = {} if f_args is None else {reserved_fn_symbol_map[p]: self.call(q) for p,q in zip(reserved_fn_args,f_args)}
 
+        dot_f = f      # .f is the function itself, local declarations included: a recursive call declares its own locals
         if is_list(f) and len(f) > 1 and is_list(f[0]) and len(f[0]) > 0:
             # Filter out semicolons and check if ALL remaining elements are symbols.
             # A mixed list like [a 1] is a normal array literal, not a local declaration.
@@ -652,7 +653,7 @@ class KlongInterpreter():
                         ctx[q] = q
                 f = f[1:]
 
-        ctx[reserved_dot_f_symbol] = f
+        ctx[reserved_dot_f_symbol] = dot_f
 
         self._context.push(ctx)
         try:
